@@ -311,7 +311,7 @@ def sigma_mid():
 
 def contexts():
     """named (prefix, suffix) contexts for sigma_mid: the enumerated part sits in dead code that is followed by live code, in an
-    if-arm, above extra operands inside / outside a value-carrying block, and inside a loop"""
+    if-arm, above extra operands inside / outside a value-carrying block, inside a loop, and spans both arms of an if above an operand"""
     c = lambda: Sym('i32.const', 'simple', (), ('i',), 'i', 'const')
     blk, blki = Sym('block', 'block', arg='', enc=block(None)), Sym('block(i32)', 'block', arg='i', enc=block('i'))
     ifi = Sym('if(i32)', 'if', arg='i', enc=if_('i'))
@@ -328,6 +328,8 @@ def contexts():
         ('two-operands-inside-block', [blki, c(), c()], [end]),
         ('operand-below-block', [c(), blki, c()], [end, add]),
         ('inside-loop-in-block', [blki, c(), lp], [end, end]),
+        # both arms of a value-carrying if are enumerated (the filling contains the else), with an operand below the if
+        ('operand-below-if', [c(), lg0, ifi], [end, add]),
     ]
 
 
